@@ -28,7 +28,35 @@ ASSUMPTIONS = ["labelled rows keep their relative order in all variants, so orde
                "AnnotatorLogisticRegression: a sample is 'unlabelled' iff no annotator labelled it"]
 REQUIRED_MONITORS = ["C12.paired-fit-oracle"]
 
+from sklearn.base import BaseEstimator, ClassifierMixin, RegressorMixin
+from sklearn.exceptions import NotFittedError
+
+
+class FailingRegressor(RegressorMixin, BaseEstimator):
+    """A wrapped estimator that cannot be fitted: drives the documented fall-back (label mean / std)."""
+
+    def fit(self, X, y, sample_weight=None):
+        raise ValueError("cannot be fitted")
+
+    def predict(self, X, return_std=False):
+        raise NotFittedError("not fitted")
+
+
+class FailingClassifier(ClassifierMixin, BaseEstimator):
+    def fit(self, X, y, sample_weight=None):
+        raise ValueError("cannot be fitted")
+
+    def predict(self, X):
+        raise NotFittedError("not fitted")
+
+    def predict_proba(self, X):
+        raise NotFittedError("not fitted")
+
+
 LEARNERS = {
+    "skr_fail": ("reg", lambda: SklearnRegressor(FailingRegressor(), random_state=0)),
+    "skn_fail": ("preg", lambda: SklearnNormalRegressor(FailingRegressor(), random_state=0)),
+    "skc_fail": ("clf_proba", lambda: SklearnClassifier(FailingClassifier(), classes=[0, 1, 2], random_state=0)),
     "sk_nb": ("clf", lambda: SklearnClassifier(GaussianNB(var_smoothing=1e-3), classes=[0, 1, 2], random_state=0)),
     "sk_lr": ("clf", lambda: SklearnClassifier(LogisticRegression(max_iter=300), classes=[0, 1, 2], random_state=0)),
     "sk_tree": ("clf", lambda: SklearnClassifier(DecisionTreeClassifier(random_state=0), classes=[0, 1, 2], random_state=0)),
@@ -62,7 +90,9 @@ def required_cells(tier):
 
 def _outputs(kind, est, Q):
     out = {}
-    if kind in ("clf", "multi"):
+    if kind == "clf_proba":       # predictions of the not-fitted fall-back are random draws: probabilities only
+        out["proba"] = np.asarray(est.predict_proba(Q), dtype=float)
+    elif kind in ("clf", "multi"):
         out["proba"] = np.asarray(est.predict_proba(Q), dtype=float)
         out["predict"] = np.asarray(est.predict(Q))
     elif kind == "reg":
@@ -90,7 +120,7 @@ def run_case(desc):
     lab = rng.rand(n) >= desc["frac"]
     if lab.sum() < 2:
         lab[rng.choice(n, size=2, replace=False)] = True
-    if kind in ("clf", "multi"):
+    if kind in ("clf", "multi", "clf_proba"):
         yt = rng.randint(0, 3, size=n).astype(float)
     else:
         yt = np.round(rng.randn(n), 2)
